@@ -4,7 +4,7 @@
 # usage: repro.sh <path to txtpp binary> [F1|F2|F3|F4|F5a|F5b|F6 ...]
 # prints "<id> DEFECT" when the defect manifests, "<id> ok" when the repaired behaviour is seen.
 BIN=$(readlink -f "$1"); shift
-ALL="F1 F2 F3 F4 F5b F6 F7"; [ $# -gt 0 ] && ALL="$*"
+ALL="F1 F2 F3 F4 F5b F6 F7 F8"; [ $# -gt 0 ] && ALL="$*"
 T=$(mktemp -d /dev/shm/txtpp-repro.XXXXXX); trap 'rm -rf "$T"' EXIT
 for id in $ALL; do
   D="$T/$id"; mkdir -p "$D"; cd "$D"
@@ -30,6 +30,12 @@ for id in $ALL; do
   F7) printf 'x\n' > my.file.txtpp.md
       "$BIN" -q my.file.txtpp.md >/dev/null 2>&1
       if [ -f my.file.md ] && [ ! -f my.md ]; then echo "F7 ok"; else echo "F7 DEFECT (my.file.txtpp.md produced $(ls | grep -v txtpp | tr '\n' ' ') instead of my.file.md)"; fi;;
+  F8) mkdir d; printf 'hello\n' > 'd/..txtpp.md'; printf 'unrelated\n' > d.md
+      "$BIN" -q clean d >/dev/null 2>&1
+      if [ -f d.md ] && [ "$(cat d.md)" = "unrelated" ]; then
+        "$BIN" -q d >/dev/null 2>&1
+        if [ "$(cat d.md)" = "unrelated" ]; then echo "F8 ok"; else echo "F8 DEFECT (source d/..txtpp.md overwrote ./d.md outside its directory)"; fi
+      else echo "F8 DEFECT (clean of d/..txtpp.md deleted ./d.md outside its directory)"; fi;;
   esac
   cd "$T"
 done
